@@ -488,3 +488,5 @@ func floatClose(a, b float64) bool {
 	m := math.Max(math.Abs(a), math.Abs(b))
 	return d <= 1e-9*m || d < 1e-12
 }
+
+const minInt64 = math.MinInt64
